@@ -69,6 +69,38 @@ def is_attr(e, name):
     return isinstance(e, ast.Attribute) and e.attr == name and isinstance(e.value, ast.Name) and e.value.id == 'self'
 
 
+def best_index_beliefs(ctx, mod, J, rule):
+    # R5b (belief contradiction): since the index moves only when the best rises, it is NOT "the entry of the latest clearance".  Outside
+    # the countback (ranking_key and what it calls) it may only be tested for "has a clearance at all" (compared with 0 / -1)
+    rk0 = J.get('ranking_key')
+    allowed_fns = {id(rk0)} | {id(f_) for n_, f_ in J.items() if n_ in ('cleared', '__init__')}
+    from ..memo import instance_memos
+    for _c, holder, _a, comp, _m, _s in instance_memos(mod):
+        if holder is rk0:
+            allowed_fns |= {id(c_) for c_ in comp}
+    n_reads = 0
+    for q, fn_ in mod.functions.items():
+        if id(fn_) in allowed_fns:
+            continue
+        for n in ast.walk(fn_):
+            if isinstance(n, ast.Attribute) and n.attr == 'highest_cleared_index' and isinstance(n.ctx, ast.Load):
+                n_reads += 1
+                par = getattr(n, '_parent', None)
+                okr = isinstance(par, ast.Compare) and len(par.ops) == 1 and (
+                    (par.left is n and isinstance(par.comparators[0], (ast.Constant, ast.UnaryOp)) and ast.unparse(par.comparators[0]) in ('0', '-1'))
+                    or (par.comparators[0] is n and ast.unparse(par.left) in ('0', '-1')))
+                if not okr:
+                    st_ = n
+                    while not isinstance(st_, ast.stmt):
+                        st_ = st_._parent
+                    ctx.finding(rule, '%s::%s::index of the best used as the latest clearance' % (HJ, q), HJ, n.lineno,
+                                '%s reads highest_cleared_index in `%s`: that index is where the best was set and does not move on a clearance '
+                                'at or below the best (jump-off with the bar lowered), so it cannot tell whether the current bar was cleared; '
+                                'outside the countback it may only be tested against 0 / -1 (has a clearance at all)' % (q, unparse(st_)[:90]),
+                                'jump-off decided by a clearance at a bar no higher than the winner\'s best')
+    ctx.note('reads of highest_cleared_index outside the countback', n_reads)
+
+
 def run(ctx, repo):
     mod = repo.module(HJ)
     J = methods_of(mod.cls('Jumper'))
@@ -188,6 +220,7 @@ def run(ctx, repo):
                                         ['B', 'o', 'o', 'xxx', 'x', 'o', 'x'], ['D', 'xo', 'o', 'xxx']],
                              'expected': 'B (jump-off participant) 2nd, D 3rd'})
     ctx.floor('stores to highest_cleared_index outside __init__', n_idx, 1)
+    best_index_beliefs(ctx, mod, J, 'R5')
 
     # ---- R2 ranking key
     rk = J.get('ranking_key')
